@@ -317,10 +317,16 @@ def run_ops(chk, pid, names, ncase=None, p_dispose=0.2):
             gt = k2w.g_trace(res, inst["enc_w"], inst["enc_b"], enc_key)
             sig = f"{name}|{inst['coq']}|{policy.gallina_imm()}|{gi}"
             v = oracle(name, inst, res)
+            vw = res.get("_view")
+            if vw and vw["outer_end"] is not None and not inst.get("outputs"):
+                t_end = vw["outer_end"][0]
+                if any(a <= t_end and (b is None or b > t_end)
+                       for g in vw["subs"] for (a, b, how) in k2w.window_sub_intervals(vw, g)):
+                    hist["outer_ended_while_window_subscriber_live"] += 1
             if res["escapes"]:
                 v = v or f"exception escaped into the emitter: {[repr(e) for _, e in res['escapes']]}"
             if v:
-                chk.violation(f"{pid}|{name}|{v[:60]}",
+                chk.violation(f"{pid}|{name}|{v.split(':')[0][:80]}",
                               {"operator": name, "machine": inst["coq"], "spec": repr(inst["spec"]),
                                "source events (time_ms, source, notification)": repr(evs),
                                "window subscription policy (per window g)": policy.describe(),
@@ -402,6 +408,7 @@ class Expect:
         self.outer = []
         self.open = []          # indices of open windows, in opening order
         self.cut = None         # input position from which nothing is demanded any more
+        self.src_done = None    # toggle: (input position of the source's completion, windows open then)
 
     def open_window(self, tag, key=None):
         self.windows.append(dict(hand_tag=tag, key=key, events=[], closed=False))
@@ -467,7 +474,7 @@ def check_expect(res, v, exp, keyed=False, buffers=False):
         wk = [(t, POOL.cls[POOL.id(k)] if keyed else None) for t, k in want]
         gk = [(t, POOL.cls[POOL.id(k)] if keyed else None) for t, k in got]
         if gk != wk:
-            return f"windows/groups handed (input position, key class): {gk}, expected {wk}"
+            return f"handed windows/groups differ from the rule: (input position, key class) {gk}, expected {wk}"
         for gi, (_, tag, g, key) in enumerate(v["hands"]):
             if g != gi:
                 return "hand numbering"
@@ -496,7 +503,8 @@ def check_expect(res, v, exp, keyed=False, buffers=False):
                     if k in "EC":
                         break
         if seen != want:
-            return (f"window/group {g} (handed at input {w['hand_tag']}, subscriptions {ivs}): subscriber saw "
+            return (f"window/group content differs from the rule: window/group {g} (handed at input {w['hand_tag']}, "
+                    f"subscriptions {ivs}): subscriber saw "
                     f"{seen}, expected {want} (input position, kind, element id)")
     # --- plain emissions + terminal on the outer
     nl = norm_list if buffers else norm
@@ -507,7 +515,7 @@ def check_expect(res, v, exp, keyed=False, buffers=False):
             break
         want.append((t, *nl(k, val)))
     if got != want:
-        return f"outer sequence (input position, kind, value): {got}, expected {want}"
+        return f"outer sequence differs from the rule: (input position, kind, value) {got}, expected {want}"
     return None
 
 
@@ -519,14 +527,14 @@ def common_checks(res, v, outputs=False):
         for (a, b, how) in ivs:
             ks = "".join(k for (_, tag, k, _) in l if tag >= a and (b is None or tag <= b))
             if not re.match(r"^N*[EC]?$", ks):
-                return f"window {g}: notification grammar violated within subscription {(a, b)}: {ks}"
+                return f"window/group notification grammar violated: window {g}, subscription {(a, b)}: {ks}"
         # silence after unsubscribe
         for (a, b, how) in ivs:
             if how == "unsub":
                 nxt = min([x[0] for x in ivs if x[0] > b], default=None)
                 late = [tag for (_, tag, k, _) in l if tag > b and (nxt is None or tag < nxt)]
                 if late:
-                    return f"window {g}: notification at input {late[0]} after its subscription was disposed at {b}"
+                    return f"notification after the window/group subscription was disposed: window {g}, input {late[0]}, disposed at {b}"
     ks = "".join(k for (_, _, k, _) in v["em"])
     if not re.match(r"^N*[EC]?$", ks):
         return f"outer grammar violated: {ks}"
@@ -537,7 +545,7 @@ def common_checks(res, v, outputs=False):
             late += [tag for (_, tag, _, _) in v["em"] if tag == oe[0]] + \
                     [tag for (_, tag, _, _) in v["hands"] if tag == oe[0]]
         if late:
-            return f"notification on the outer at input {late[0]} after it ended at {oe}"
+            return f"notification on the outer after it ended: input {late[0]}, ended at {oe}"
     return release_check(res, v, outputs)
 
 
@@ -563,13 +571,13 @@ def release_check(res, v, outputs):
         if (not outer_live and nsub == 0) or released:
             released = not outputs
             if st["live_after"]:
-                return (f"source subscriptions {sorted(st['live_after'])} still open after input {tag}: the outer "
+                return (f"source subscription left open after everything ended: sources {sorted(st['live_after'])} after input {tag}; the outer "
                         f"subscription ended at {oe} and no window/group subscription is live")
             if st["timers_after"]:
-                return (f"timers {sorted(st['timers_after'])} still pending after input {tag}: the outer "
+                return (f"timer left pending after everything ended: timers {sorted(st['timers_after'])} after input {tag}; the outer "
                         f"subscription ended at {oe} and no window/group subscription is live")
         elif (not outputs or nsub > 0) and ever and (term0 is None or tag < term0) and 0 not in st["live_after"]:
-            return (f"main source not subscribed after input {tag} although "
+            return (f"main source released while a subscriber is live: not subscribed after input {tag} although "
                     f"{'the outer subscription' if outer_live else 'a window/group subscription'} is live")
     return None
 
@@ -622,7 +630,7 @@ def e_replay(inst, res, v):
         for (tag, t, i) in acc:
             # every edge strictly before t must have been processed by a timer firing
             if min(opened * shift, closed * shift + span) < t and not exp.outer_done():
-                return f"window_with_time({span},{shift}): no timer firing at {min(opened * shift, closed * shift + span)} (next input at {t})"
+                return f"window edge not served by a timer: window_with_time({span},{shift}), no firing at {min(opened * shift, closed * shift + span)} (next input at {t})"
             if i[0] == "tick":
                 if exp.outer_done():
                     continue
@@ -637,7 +645,7 @@ def e_replay(inst, res, v):
                     closed += 1
                     did = True
                 if not did:
-                    return f"window_with_time({span},{shift}): timer fired at {t}, not an edge (k*shift / k*shift+span)"
+                    return f"timer fired off the window edges: window_with_time({span},{shift}) at {t} (edges k*shift / k*shift+span)"
             elif i[2][0] == "N":
                 exp.to_all_open(tag, "N", i[2][1])
             else:
@@ -651,7 +659,7 @@ def e_replay(inst, res, v):
             if exp.outer_done():
                 continue
             if t_open + span < t:
-                return f"window_with_time_or_count({span},{count}): window opened at {t_open} not closed at {t_open + span}"
+                return f"window not closed at its timespan: window_with_time_or_count({span},{count}), opened at {t_open}, due {t_open + span}"
             if i[0] == "tick":
                 if t == t_open + span:
                     exp.to(cur, tag, "C")
@@ -725,6 +733,7 @@ def e_replay(inst, res, v):
                 else:
                     # all open windows end with the source's terminal kind; the outer sequence follows the
                     # openings (tests/test_observable/test_window.py::test_window_toggle_basic)
+                    exp.src_done = (tag, list(exp.open))
                     exp.to_all_open(tag, "C")
             elif k == 1:
                 if ev[0] == "N":
@@ -829,13 +838,13 @@ def o_partition(inst, res, v):
                     else:
                         want[g].append((tag, *norm(ev[0], ev[1] if ev[0] == "E" else None)))
         if ev[0] == "N" and len(set(sent)) > 1:
-            return f"partition: element at input {tag} expected on both outputs?"
+            return f"partition oracle inconsistency: input {tag}"
         if ev[0] != "N":
             stopped = norm(ev[0], ev[1] if ev[0] == "E" else None)
     for g in (0, 1):
         seen = [(tag, *norm(k, val)) for (_, tag, k, val) in v["win"].get(g, [])]
         if seen != want[g]:
-            return (f"partition output {g} (subscriptions {ivs[g]}): subscriber saw {seen}, expected {want[g]} "
+            return (f"partition output differs from the predicate: output {g} (subscriptions {ivs[g]}): subscriber saw {seen}, expected {want[g]} "
                     f"(input position, kind, element id)")
     # each element delivered to at most one output
     by_tag = {}
@@ -845,7 +854,7 @@ def o_partition(inst, res, v):
                 by_tag.setdefault(tag, set()).add(g)
     both = [t for t, s in by_tag.items() if len(s) > 1]
     if both:
-        return f"partition: the element of input {both[0]} was delivered to both outputs"
+        return f"partition delivered an element to both outputs: input {both[0]}"
     return None
 
 
@@ -900,9 +909,26 @@ def oracle(name, inst, res):
     if isinstance(exp, str):
         return exp
     buffers = inst["ty_b"] != "unit"
+    toggle_done = exp.src_done
+    wexp = exp
     if buffers:
         exp = buffers_from(exp)
         if name == "buffer_with_count":
             exp.outer = [(t, k, val) for (t, k, val) in exp.outer if not (k == "N" and len(val) == 0)]
     c = check_expect(res, v, exp, keyed=bool(inst.get("keyed")), buffers=buffers)
+    if c and toggle_done and toggle_done[1]:
+        # is it the open-windows-at-source-completion clause that fails?
+        t, opened = toggle_done
+        oe = v["outer_end"]
+        if buffers:
+            n_at = sum(1 for (_, tag, k, _) in v["em"] if tag == t and k == "N")
+            if (oe is None or oe[0] >= t) and n_at < len(opened):
+                return (f"open windows not ended when the source completed: {len(opened)} windows open at input {t}, "
+                        f"{n_at} buffers emitted there; {c}")
+        else:
+            for g in opened:
+                live = any(a <= t and (b is None or b >= t) for (a, b, how) in k2w.window_sub_intervals(v, g))
+                got = any(tag == t and k == "C" for (_, tag, k, _) in v["win"].get(g, []))
+                if live and not got:
+                    return f"open windows not ended when the source completed: window {g} at input {t}; {c}"
     return c or common_checks(res, v)
